@@ -9,9 +9,10 @@ use crate::prop;
 use crate::textgen::{self, ITEMS};
 use serde_json::json;
 
-const RULE: &str = "UTF-8 texts: (1) bounded-exhaustive: ALL sequences of up to L lexical items from a 55-item alphabet of the grammar language (keywords, punctuators, identifiers, strings incl. '' / escapes / unterminated / multi-byte, ?1 ?t #1 !1 @a @ <1 1>a > 1> >a, line/doc/block comments incl. unterminated and without final newline, whitespace, stray characters), joined with and without a space (L = 3 quick, 4 thorough); (2) token-level mutations (delete, duplicate, insert, swap, truncate, replace) of every .llw file in the repository and of generated grammars in random layouts; (3) byte soup mixing grammar fragments, ASCII and multi-byte code points. Oracle: lexing + parsing + semantic pass return (no panic); every label range satisfies start <= end <= len on char boundaries; every diagnostic renders (rich and short) with codespan; token leaves of the front end's own CST tile the text. non-trivial = text with >= 1 syntax error that still reaches the semantic pass, or a multi-byte character inside a token that draws a diagnostic; distinct = the text";
+const RULE: &str = "UTF-8 texts: (1) bounded-exhaustive: ALL sequences of up to L lexical items from a 56-item alphabet of the grammar language (keywords, punctuators, identifiers, strings incl. '' / escapes / unterminated / multi-byte, ?1 ?t #1 !1 @a @ <1 1>a > 1> >a, line/doc/block comments incl. unterminated and without final newline, whitespace, stray characters), joined with and without a space (L = 3 quick, 4 thorough); (2) token-level mutations (delete, duplicate, insert, swap, truncate, replace) of every .llw file in the repository and of generated grammars in random layouts; (2b) systematically, for generated grammars (canonical and random layout), EVERY single-lexeme deletion and every third single-lexeme duplication; (3) byte soup mixing grammar fragments, ASCII and multi-byte code points. Oracle: lexing + parsing + semantic pass return (no panic); every label range satisfies start <= end <= len on char boundaries; every diagnostic renders (rich and short) with codespan; token leaves of the front end's own CST tile the text. non-trivial = text with >= 1 syntax error that still reaches the semantic pass, or a multi-byte character inside a token that draws a diagnostic; distinct = the text";
 
 pub fn check_text(text: &str, ev: &mut Evidence, origin: &str) -> Result<(), Violation> {
+    let _case = crate::prop::case_guard("C12", origin, text);
     ev.eval();
     let t2 = text.to_string();
     let info = match lw::catch(move || lw::frontend_check(&t2)) {
@@ -92,9 +93,18 @@ pub fn run(ctx: &Ctx) -> i32 {
     for f in files {
         let v: serde_json::Value = serde_json::from_str(&std::fs::read_to_string(&f).unwrap()).unwrap();
         if let Some(t) = v["replay"]["text"].as_str() {
-            if let Err(v) = check_text(t, &mut ev, "replay") {
-                rep.violation(v);
+            // a replay may be a text on which the front end does not return: same deadline as the watchdog
+            let t2 = t.to_string();
+            let limit = crate::prop::hang_limit();
+            match crate::prop::with_deadline(limit, move || {
+                let mut e2 = Evidence::new("C12", crate::ev::Tier::Quick, 0, "");
+                check_text(&t2, &mut e2, "replay")
+            }) {
+                Some(Err(v)) => rep.violation(v),
+                Some(Ok(())) => {}
+                None => rep.violation(Violation { sig: "no-return".into(), what: format!("the front end does not return within {limit} s on {:?} (usual: well below a millisecond); confirmed in a fresh process", t.chars().take(80).collect::<String>()), replay: json!({"text": t, "origin": "replay"}) }),
             }
+            ev.eval();
             ev.label("replayed");
         }
     }
@@ -147,6 +157,34 @@ pub fn run(ctx: &Ctx) -> i32 {
         let text = if d.chance(1, 4) { base } else { textgen::mutate_text(&base, &mut d) };
         ev.label("mutants");
         check_text(&text, ev, "mutant")
+    });
+    ev.merge(out.ev);
+    for v in out.violations.into_iter().chain(out.known_hits) {
+        rep.violation(v);
+    }
+    // (2b) every single-lexeme deletion and duplication of generated grammars (systematic, not
+    // sampled: a declaration that lost exactly its name, its colon, one bracket ...)
+    let sys = ctx.tier.pick(4_000u32, 60_000u32);
+    let out = prop::run_prop("C12", ctx.tier, ctx.seed, "single-edits", sys, ctx.threads, 500, |stream, ev| {
+        let g = ggen::build(&Profile::text(), stream);
+        let tail: Vec<u32> = stream.iter().rev().take(200).copied().collect();
+        let mut d = Dice::new(&tail);
+        let text = if d.chance(1, 2) { crate::gm::print(&g).text } else { textgen::layout(&g, &mut d, true).text };
+        let lex = textgen::split(&text);
+        for (i, l) in lex.iter().enumerate() {
+            if l.kind == textgen::LexKind::Ws {
+                continue;
+            }
+            let del = format!("{}{}", &text[..l.start], &text[l.end..]);
+            ev.label("single_deletions");
+            check_text(&del, ev, "single deletion")?;
+            if i % 3 == 0 {
+                let dup = format!("{}{} {}", &text[..l.end], &text[l.start..l.end], &text[l.end..]);
+                ev.label("single_duplications");
+                check_text(&dup, ev, "single duplication")?;
+            }
+        }
+        Ok(())
     });
     ev.merge(out.ev);
     for v in out.violations.into_iter().chain(out.known_hits) {
@@ -210,7 +248,7 @@ fn fuzz_stage(ctx: &Ctx, ev: &mut Evidence, rep: &mut Report, corpus: &[(String,
     }
     std::fs::write(&dict, dtext).unwrap();
     let runs = std::env::var("VERIF_FUZZ_RUNS").ok().and_then(|s| s.parse::<u64>().ok()).unwrap_or(ctx.tier.pick(60_000, 1_500_000));
-    let build = std::process::Command::new("cargo").current_dir(&fuzz_dir).env("CARGO_NET_OFFLINE", "true").args(["+nightly", "fuzz", "build", "text_frontend"]).output();
+    let build = std::process::Command::new("cargo").current_dir(&fuzz_dir).env("CARGO_NET_OFFLINE", "true").args(["+nightly", "fuzz", "build", "-s", "none", "text_frontend"]).output();
     match build {
         Ok(o) if o.status.success() => {}
         other => {
@@ -222,7 +260,8 @@ fn fuzz_stage(ctx: &Ctx, ev: &mut Evidence, rep: &mut Report, corpus: &[(String,
     let out = std::process::Command::new("cargo")
         .current_dir(&fuzz_dir)
         .env("CARGO_NET_OFFLINE", "true")
-        .args(["+nightly", "fuzz", "run", "text_frontend", cdir.to_str().unwrap(), "--"])
+        .env("VERIF_NO_WATCHDOG", "1")
+        .args(["+nightly", "fuzz", "run", "-s", "none", "text_frontend", cdir.to_str().unwrap(), "--"])
         .arg(format!("-artifact_prefix={}/", adir.display()))
         .arg(format!("-dict={}", dict.display()))
         .arg(format!("-seed={}", 1 + ctx.seed % 1_000_000))
